@@ -87,7 +87,7 @@ def replay_corpus(prop, mod, tier, total, violations, known_lines):
         if camp is None or camp.evaluate is None:
             continue
         case = S.loads(v["case_b64"])
-        r = (getattr(mod, "replay_evaluate", None) or camp.evaluate)(case)
+        r = engine.guarded(getattr(mod, "replay_evaluate", None) or camp.evaluate, case)
         total.record(r)
         n += 1
         unknown, known = engine._split(r.violations, prop, case)
